@@ -63,12 +63,13 @@ def chainIter : List Nat → Nat → M Unit
     scopedIter s (forEach s (fun x => do yieldV x; pure true) fuel)
     chainIter rest fuel
 
-/-- `chain._owned_iterators`: arguments that are async iterators with `aclose` -/
+/-- `chain._owned_iterators`: an argument that is an async iterator with `aclose` is closed -/
+def closeIfOwned (s : Nat) : M Unit := fun w =>
+  if (w.srcs s).kind = .agen ∨ (w.srcs s).kind = .aobj then closeSrc s w else (.ok (), w)
+
 def closeOwned : List Nat → M Unit
   | [] => pure ()
-  | s :: rest => do
-    (fun w => if (w.srcs s).kind = .agen ∨ (w.srcs s).kind = .aobj then closeSrc s w else (.ok (), w))
-    closeOwned rest
+  | s :: rest => do closeIfOwned s; closeOwned rest
 
 /-- the `chain` handle: advancing delegates to `_chain_iterator`; the consumer's `aclose()` also
     closes every owned iterator, started or not -/
